@@ -1313,6 +1313,7 @@ async def run_plain(ctx: Ctx, rng, hops: int, use_model: bool, seed_tag: str, al
         # ---- injected cells -----------------------------------------------------------------------------------
         await inject_round(ctx, rng, ck, sim, circuits, paths, hops)
         await other_address_round(ctx, rng, ck, sim, circuits[0], paths[0])
+        await create_under_own_id_round(ctx, rng, ck, sim, paths[0][0][0], 0, circuits[0], "plain")
         ck.compare_tables("at the end")
         for e in sim.loop_errors:
             ctx.count(f"loop_error:{e}")
@@ -1931,6 +1932,8 @@ async def run_e2e(ctx: Ctx, rng, use_model: bool, seed_tag: str, all_bytes_sizes
                                     "end-to-end layer must still cover it", replay)
                 ctx.case(("e2e", direction, "data", "closing"), True)
             await rp_reflect_round(ctx, rng, ck, sim, senders, state="closing")
+            if d.circuit_id in o0.circuits:
+                await create_under_own_id_round(ctx, rng, ck, sim, sim.addr2idx.get(tuple(d.hop.address), 1), 0, d, "e2e")
     finally:
         if ck.drv is not None:
             ck.drv.close()
@@ -1995,6 +1998,9 @@ async def run_preready(ctx: Ctx, rng, use_model: bool, seed_tag: str):
                             ctx.disagree(f"{tag}: cell in clear for a circuit without keys: model {mw} {mfin} != implementation {real} {fin}",
                                          {**replay, "model": m, "impl": real + [fin]})
                     ctx.case(("preready", kind, src == first_hop, ptf), True)
+        sim.hold.discard(0)
+        await create_under_own_id_round(ctx, rng, ck, sim, first_hop, 0, c, "preready")
+        sim.hold.add(0)
         # the owner itself sends into the circuit that has no hop keys yet (data, ping): nothing may leave unencrypted —
         # there is no key, so nothing may leave at all (guard of outgoing_crypto; model: noKeyToSend)
         for what in ("data", "ping"):
@@ -2142,6 +2148,8 @@ async def run_teardown(ctx: Ctx, rng, hops: int, use_model: bool, seed_tag: str)
         # when only the exit retires its socket (idle / too old / over quota) nobody else knows: the circuit is still
         # ready for its owner, and the delay exists so that data still arrives
         await traffic("during", trigger == "exit-retire")
+        if c.circuit_id in ov.circuits:
+            await create_under_own_id_round(ctx, rng, ck, sim, path[0][0], 0, c, "teardown")
         compare_cover("during remove_tunnel_delay, after traffic")
         # ---- the instant the delay ends: a host-name resolution is still pending at the exit and the Internet host keeps
         #      answering on every loop turn while the removal (pop, shutdown of the socket's tasks, close) is in progress
@@ -2330,6 +2338,30 @@ async def run_tunnel_endpoint(ctx: Ctx, rng, hops: int, use_model: bool, seed_ta
                         ctx.disagree(f"{tag}: return of a {pname} packet: model sink {s1}, delivery set {m} != implementation {real}",
                                      {**replay, "model": m, "impl": real})
                 ctx.case(("tunnel-endpoint", hops, pname, size == 1), True)
+        # ---- the tunnel community is detached (what its unload does) while the overlays keep sending: a packet of the anonymized
+        #      overlay must not leave the node at all (it may only travel inside circuit cells); the plain overlay sends as before
+        n0.endpoint.set_tunnel_community(None)
+        for who, overlay_ in (("anon", anon), ("plain", plain), ("anon", anon)):
+            dest = tuple(sim.nodes[hops].endpoint.wan_address)
+            pkt = overlay_.get_prefix() + bytes([0xEE]) + bytes(rng.getrandbits(8) for _ in range(40))
+            first = len(sim.passages)
+            sim.op_first_pid = first
+            n_exit = len(sim.exit_log)
+            overlay_.endpoint.send(dest, pkt)
+            await sim.settle()
+            direct = [p for p in sim.passages[first:] if p.node == 0 and (p.msg == pkt or (p.kind == "raw" and pkt in p.msg))]
+            replay = {"scenario": tag, "op": "send-while-detached", "overlay": who, "packet": pkt.hex(), "destination": list(dest), "hops": hops}
+            if who == "anon" and direct:
+                ctx.oracle_fail("tunnel_endpoint:anonymized-packet-in-clear", f"{tag}: with no tunnel community attached a packet of the anonymized "
+                                f"overlay left node 0 unencrypted, addressed directly to {dest}", replay)
+            ctx.count(f"tunnel_endpoint_detached:{who}:{'direct' if direct else 'not-sent'}")
+            if ck.drv is not None:
+                m = ck.ask(f"tepany {int(who == 'anon')} 0 0")
+                real = f"direct={len(direct)} out={len(sim.exit_log[n_exit:])} queued=0"
+                if m != real:
+                    ctx.disagree(f"{tag}: {who} overlay sends while no tunnel community is attached: model `{m}` != implementation `{real}`",
+                                 {**replay, "model": m, "impl": real})
+            ctx.case(("tunnel-endpoint", "detached", who), True)
     finally:
         if ck.drv is not None:
             ck.drv.close()
@@ -2427,6 +2459,131 @@ async def run_dual_stack(ctx: Ctx, rng, hops: int, use_model: bool, seed_tag: st
 
 
 # ------------------------------------------------------------------------------------------------------------------
+async def create_under_own_id_round(ctx: Ctx, rng, ck: Checker, sim: Sim, attacker: int, victim: int, c, kindtag: str):
+    """A peer (typically the first hop, which holds only the first layer of keys) sends a CREATE that names one of the victim's OWN
+    circuit ids — while that circuit is being built, ready or closing — and, if it gets a CREATED back, a DATA cell under the keys of
+    that hand-shake.  The id is in use: the CREATE must be refused; in no case may the forged data reach on_raw_data."""
+    from ipv8.messaging.anonymization.payload import CreatedPayload, CreatePayload, DataPayload
+    tag = ck.tag
+    att, vic = sim.nodes[attacker].overlay, sim.nodes[victim].overlay
+    cid = c.circuit_id
+    state = c.state
+    before = (cid in vic.circuits, cid in vic.relay_from_to, cid in vic.exit_sockets)
+    dh_secret, dh_first = att.crypto.generate_diffie_secret()
+    first = len(sim.passages)
+    sim.op_first_pid = first
+    n_raw, n_exit = len(sim.raw_log), len(sim.exit_log)
+    held = attacker in sim.hold
+    att.send_cell(sim.nodes[victim].endpoint.wan_address,
+                  CreatePayload(cid, rng.randrange(1, 65000), att.my_peer.public_key.key_to_bin(), dh_first))
+    await sim.settle()
+    replay = {"scenario": tag, "op": "create-under-own-id", "circuit_state": state, "attacker": attacker, "victim": victim, "cid": cid}
+    accepted = (cid in vic.exit_sockets) and not before[2]
+    created = [p for p in sim.passages[first:] if p.kind == "cell" and p.node == victim and p.msg[:1] == b"\x03"]
+    delivered = False
+    if created and not held:
+        msg = created[0].msg
+        data = vic.get_prefix() + msg[0:1] + struct.pack("!I", cid) + msg[1:]
+        try:
+            payload, _ = vic.serializer.unpack_serializable(CreatedPayload, data, offset=23)
+            shared = att.crypto.verify_and_generate_shared_secret(dh_secret, payload.key, payload.auth,
+                                                                  sim.nodes[victim].my_peer.public_key.get_crypt_pk())
+            keys = att.crypto.generate_session_keys(shared)
+            forged = bytes([1]) + vic.serializer.pack_serializable(DataPayload(cid, ZERO, ("6.6.6.6", 6), b"FORGED-UNDER-A-REUSED-ID"))[4:]
+            pkt = vic.get_prefix() + b"\x00" + struct.pack("!I??", cid, False, False) + keys.encrypt_str(forged, 0)
+            replay["datagram"] = pkt.hex()
+            sim.inject(victim, attacker, pkt)
+            await sim.settle()
+        except Exception as e:      # the hand-shake could not be completed: nothing to forge with
+            replay["handshake_error"] = type(e).__name__
+        delivered = bool(sim.raw_log[n_raw:] or sim.exit_log[n_exit:])
+    if delivered:
+        ctx.oracle_fail("on_create:forged-data-delivered", f"{tag}: node {attacker} sent a CREATE naming circuit {cid} of node {victim} (own circuit, "
+                        f"state {state}), was answered, and its DATA cell under that hand-shake was delivered as data of the circuit", replay)
+    elif accepted or created:
+        ctx.oracle_fail("on_create:own-circuit-id-accepted", f"{tag}: a CREATE naming circuit id {cid}, which node {victim} uses for an own circuit "
+                        f"(state {state}), was accepted", replay)
+    ctx.count(f"create_under_own_id:{state}:{'accepted' if (accepted or created) else 'refused'}")
+    if ck.drv is not None:
+        m = ck.ask(f"createinuse {int(before[0])} {int(before[1])} {int(before[2])}")
+        real = str(int(not (accepted or created)))
+        if m != real:
+            ctx.disagree(f"{tag}: CREATE under a circuit id in use (tables {before}): model refuses={m}, implementation refuses={real}",
+                         {**replay, "model": m, "impl": real})
+    ctx.case((kindtag, "create-under-own-id", state), True)
+
+
+async def run_impostor(ctx: Ctx, rng, use_model: bool, seed_tag: str):
+    """The CREATE meant for the chosen hop is answered by somebody else, who does NOT hold that hop's static private key (it sits on
+    the hop's address).  Whatever circuit results: what the originator sends into it must not be readable by that party with any
+    key it can derive, and what that party sends back must not be delivered."""
+    from ipv8.keyvault.crypto import default_eccrypto
+    from ipv8.messaging.anonymization.crypto import TunnelCrypto
+    from ipv8.messaging.anonymization.payload import CreatedPayload, CreatePayload, DataPayload
+    from ipv8.messaging.anonymization.tunnel import PEER_FLAG_EXIT_BT, PEER_FLAG_RELAY, PEER_FLAG_SPEED_TEST
+    sim = Sim(rng, hidden=False, open_policy=True)
+    tag = f"impostor/{seed_tag}"
+    try:
+        sim.add_node()
+        sim.add_node(flags={PEER_FLAG_RELAY, PEER_FLAG_SPEED_TEST, PEER_FLAG_EXIT_BT})
+        await sim.introduce()
+        o = sim.nodes[0].overlay
+        sim.hold.add(0)
+        first = len(sim.passages)
+        c = o.create_circuit(1)
+        await sim.settle()
+        creates = [p for p in sim.passages[first:] if p.kind == "cell" and p.msg[:1] == b"\x02"]
+        if c is None or not creates:
+            return
+        msg = creates[0].msg
+        data = o.get_prefix() + msg[0:1] + struct.pack("!I", c.circuit_id) + msg[1:]
+        create, _ = o.serializer.unpack_serializable(CreatePayload, data, offset=23)
+        imp = TunnelCrypto()
+        imp.initialize(default_eccrypto.generate_key("curve25519"))       # the impostor's OWN static key
+        shared, crypt_pk, auth = imp.generate_diffie_shared_secret(create.key)
+        keys_imp = imp.generate_session_keys(shared)
+        cand = keys_imp.encrypt_str(o.serializer.pack("varlenH-list", []), 0)
+        created = bytes([3]) + o.serializer.pack_serializable(CreatedPayload(c.circuit_id, create.identifier, crypt_pk, auth, cand))[4:]
+        pkt = o.get_prefix() + b"\x00" + struct.pack("!I??", c.circuit_id, True, False) + created
+        sim.hold.clear()
+        sim.inject(0, 1, pkt)
+        await sim.settle()
+        ctx.count(f"impostor:circuit_state:{c.state}:hops:{len(c.hops)}")
+        if c.state != "READY" or not c.hops:
+            ctx.case(("impostor", "not-established"), True)
+            return
+        # the originator uses the circuit
+        payload = rand_payload(rng, 60)
+        first = len(sim.passages)
+        n_raw = len(sim.raw_log)
+        o.send_data(c.hop.address, c.circuit_id, ("8.8.4.4", 53), ZERO, payload)
+        await sim.settle()
+        replay = {"scenario": tag, "op": "impostor-hop", "payload": payload.hex()}
+        for p in sim.passages[first:]:
+            for (src, dst, cid, pt, re, body) in p.wires:
+                readable = False
+                for d in (0, 1):
+                    try:
+                        readable = readable or payload in keys_imp.decrypt_str(body, d)
+                    except Exception:
+                        pass
+                if readable or payload in body:
+                    ctx.oracle_fail("key_agreement:impostor-reads-data", f"{tag}: the party that answered the CREATE without the chosen hop's "
+                                    "static key derives session keys under which the originator's data decrypts", {**replay, "datagram_body": body.hex()})
+        forged = bytes([1]) + o.serializer.pack_serializable(DataPayload(c.circuit_id, ZERO, ("6.6.6.6", 6), b"FROM-THE-IMPOSTOR"))[4:]
+        back = o.get_prefix() + b"\x00" + struct.pack("!I??", c.circuit_id, False, False) + keys_imp.encrypt_str(forged, 1)
+        sim.inject(0, 1, back)
+        await sim.settle()
+        if sim.raw_log[n_raw:]:
+            ctx.oracle_fail("key_agreement:impostor-data-delivered", f"{tag}: data encrypted by the party that answered the CREATE without the "
+                            "chosen hop's static key was delivered to the originator", {**replay, "datagram": back.hex()})
+        ctx.case(("impostor", "established"), True)
+    finally:
+        sim.hold.clear()
+        await sim.stop()
+
+
+# ------------------------------------------------------------------------------------------------------------------
 def run_async(coro_fn):
     import logging
     import vclock
@@ -2480,6 +2637,9 @@ def run(ctx: Ctx):
         _, errs = run_async(lambda: run_tunnel_endpoint(ctx, sub, hops, use_model, f"s{ctx.seed}r{rnd}"))
         note_errs(ctx, errs)
         sub = _random.Random(ctx.rng.getrandbits(64))
+        _, errs = run_async(lambda: run_impostor(ctx, sub, use_model, f"s{ctx.seed}r{rnd}"))
+        note_errs(ctx, errs)
+        sub = _random.Random(ctx.rng.getrandbits(64))
         _, errs = run_async(lambda: run_dual_stack(ctx, sub, 1 + (rnd + 1) % 3, use_model, f"s{ctx.seed}r{rnd}"))
         note_errs(ctx, errs)
 
@@ -2500,6 +2660,8 @@ def search(ctx: Ctx, reason: str):
             run_async(lambda: run_tunnel_endpoint(ctx, sub, hops, False, f"search{rnd}"))
             sub = _random.Random(ctx.rng.getrandbits(64))
             run_async(lambda: run_dual_stack(ctx, sub, hops, False, f"search{rnd}"))
+        sub = _random.Random(ctx.rng.getrandbits(64))
+        run_async(lambda: run_impostor(ctx, sub, False, f"search{rnd}"))
 
 
 def replay(ctx: Ctx, rec: dict):
